@@ -17,6 +17,9 @@ CLAIMED = {
  "C03": (HIST + "then one generated swap (single v1/v2 or two-hop) re-executed on clones with thresholds realised-1 / realised / realised+1 / 0 / u64::MAX; oracle from balance deltas and pool price",
          "Accept <=> threshold admits the realised amount, decided on every generated case at the exact boundary; amount, direction, bound and limit clauses from balance deltas on states reached by generated histories, SPL Token and Token-2022 pools, single and two-hop.",
          NSVM, "DESIGN.md §3 C03"),
+ "C04": ("fault-injection table over generated worlds: every privileged instruction x {missing signature, other signer, other role's authority, delegate 0/1/2, token moved to a new holder}, executed through the real entrypoint with the real token programs",
+         "The complete table of 52 privileged instructions (Anchor- and Pinocchio-dispatched) is enumerated on every generated world; each mutant call must fail, with positive controls (baseline, 1-token delegate, new holder) proving the harness reaches the check.",
+         NSVM, "DESIGN.md §3 C04"),
  "C05": (HIST + "harness ledger of requested liquidity deltas vs independently decoded pool / tick-array bytes after every instruction",
          "After every successful instruction the pool's liquidity, every one of the 88 slots of every tick array (both encodings, decoded by the harness) and every position are compared with sums over a harness-side ledger.",
          NSVM, "DESIGN.md §3 C05"),
@@ -26,6 +29,9 @@ CLAIMED = {
  "C07": (HIST + "exact pro-rata fee ledger (2^-192 fixed-point enclosure) with a derived two-sided rounding bound at every crediting",
          "Two-sided bound: credited <= exact share and shortfall <= derived rounding slack, for every position at every crediting point, with accumulators started anywhere in u128.",
          NSVM + " H2 trace for per-step LP fee (formula decided by C06).", "DESIGN.md §3 C07"),
+ "C15": ("account-substitution table over generated worlds: every account slot of every fund-moving instruction replaced by a well-formed account of the same type from another pool / mint / position / reward index / program",
+         "Slot tables for all fund-moving instructions (single, adaptive and two-hop swaps, all liquidity instructions, collects, reward emissions) are enumerated on every generated world; every substituted call must fail while the baseline succeeds.",
+         NSVM, "DESIGN.md §3 C15"),
  "C17": ("differential/metamorphic property-based testing: two-hop on clone A vs the two single swaps on clone B over two generated pool histories; byte equality of the complete account store; failure equivalences",
          "Every well-formed generated two-hop that succeeds is compared byte for byte (all accounts) with its two single swaps; mismatching intermediates, failing legs, same-pool and no-shared-mint routes and thresholds missed by one must be rejected.",
          NSVM, "DESIGN.md §3 C17"),
